@@ -3,12 +3,12 @@
 # Applies a mutant to a scratch copy of the tree (outside /repo and /verif), runs the check against it, removes the copy.
 # A patch file (*.diff|*.patch) is applied with `git apply`/patch -p1; a *.sed file is `path<TAB>sed-expression` lines.
 set -u
-M="$1"; P="$2"; T="${3:-quick}"
+M="$(realpath "$1")"; P="$2"; T="${3:-quick}"
 W=$(mktemp -d /tmp/vfmut.XXXXXX)
 mkdir -p "$W/repo"; cp -r "${VERIF_REPO_BASE:-/repo}/include" "$W/repo/include"
 case "$M" in
   *.sed) while IFS=$'\t' read -r f e; do [ -z "$f" ] && continue; sed -i -E "$e" "$W/repo/$f" || exit 3; done < "$M" ;;
-  *) (cd "$W/repo" && patch -s -p1 < "$(realpath "$M")") || { echo "patch failed"; rm -rf "$W"; exit 3; } ;;
+  *) (cd "$W/repo" && patch -s -p1 < "$M") || { echo "patch failed"; rm -rf "$W"; exit 3; } ;;
 esac
 if diff -rq "${VERIF_REPO_BASE:-/repo}/include" "$W/repo/include" >/dev/null; then echo "MUTANT DID NOT CHANGE THE TREE"; rm -rf "$W"; exit 3; fi
 VERIF_REPO="$W/repo" "$(dirname "$0")/../bin/check" "$P" "$T"; rc=$?
